@@ -40,10 +40,10 @@ PROPS["C06"] = dict(
         SC_NOTE,
     ],
     runs=[
-        run("history", "c06_rc", "counter_history", "rc", dict(procs=8, cases=20000), dict(procs=16, cases=150000)),
-        run("threads", "c06_rc", "counter_threads", "rc", dict(procs=4, cases=3000), dict(procs=6, cases=30000),
+        run("history", "c06_rc", "counter_history", "rc", dict(procs=8, cases=20000), dict(procs=16, cases=120000)),
+        run("threads", "c06_rc", "counter_threads", "rc", dict(procs=4, cases=3000), dict(procs=6, cases=25000),
             deterministic=False),
-        run("threads-tsan", "c06_rc_tsan", "counter_threads", "rc", None, dict(procs=4, cases=15000),
+        run("threads-tsan", "c06_rc_tsan", "counter_threads", "rc", None, dict(procs=4, cases=12000),
             deterministic=False),
         # fixed cases: only ever replayed (replays/C06/*.json, known/C06/*.json); no search budget
         run("f7-witness", "c06_rc", "f7_witness", "rc", None, None),
